@@ -315,7 +315,15 @@ fn frame_model_cases(drv: &mut Drv, rep: &mut Report, rng: &mut Rng, n: usize) {
             let style = rng.next();
             synth_frame(rng, w, h, style).0
         };
-        let line = format!("vp8framemodel {}", hex(&vp8));
+        // every fifth frame is damaged: cut short, or one byte of the first 40 changed (the model must
+        // reject exactly the frames the decoder rejects and agree on the planes of the others)
+        let mut vp8 = vp8;
+        if i % 5 == 4 {
+            if rng.chance(1, 2) { let k = rng.below(vp8.len() as u64 + 1) as usize; vp8.truncate(k); }
+            else if !vp8.is_empty() { let k = rng.below(vp8.len().min(40) as u64) as usize; vp8[k] ^= 1 << rng.below(8); }
+        }
+        let line = format!("vp8framemodel {}", if vp8.is_empty() { "00".to_string() } else { hex(&vp8) });
+        if vp8.is_empty() { vp8.push(0); }
         let got = match catch(|| image_webp::vp8::Vp8Decoder::decode_frame(Cursor::new(&vp8[..]))) {
             Ok(Ok(f)) => format!("ok {} {} {}/{} {}/{} {}/{}", f.width, f.height, fnv_bytes(FNV_INIT, &f.ybuf), f.ybuf.len(), fnv_bytes(FNV_INIT, &f.ubuf), f.ubuf.len(), fnv_bytes(FNV_INIT, &f.vbuf), f.vbuf.len()),
             Ok(Err(_)) => "err".to_string(),
@@ -323,6 +331,7 @@ fn frame_model_cases(drv: &mut Drv, rep: &mut Report, rng: &mut Rng, n: usize) {
         };
         let exp = drv.ask(&line);
         rep.case(&line, true);
+        if i % 5 == 4 { rep.hit("frame_model_damaged_frame"); }
         rep.hit(if got == "err" { "frame_model_rejected" } else if i % 3 == 2 { "frame_model_libwebp_encoded" } else { "frame_model_synthetic" });
         if got != exp {
             let k = got.split(' ').zip(exp.split(' ')).position(|(a, b)| a != b).unwrap_or(0);
